@@ -8,14 +8,11 @@ import UnytProofs.Lemmas.C14Chunk11  -- build order only: at most four chunks ar
 namespace Unyt.C14
 
 /-- every listed name of chunk 15 (four slices of 64 rows) is read by the string route and by the
-    three attribute routes as the independent reference reads it (guard: word-prefixed °C) -/
+    three attribute routes as the independent reference reads it -/
 theorem names_slice_15_0 : namesSliceOk 15 0 = true := by decide +kernel
 theorem names_slice_15_1 : namesSliceOk 15 1 = true := by decide +kernel
 theorem names_slice_15_2 : namesSliceOk 15 2 = true := by decide +kernel
 theorem names_slice_15_3 : namesSliceOk 15 3 = true := by decide +kernel
-
-/-- every excluded name of chunk 15 really is unusable as a unit string -/
-theorem exclusions_chunk_15 : exclusionsChunkOk 15 = true := by decide +kernel
 
 /-- prefix spellings 3·15 … 3·15+2 (symbols, then word forms) are rejected on every
     non-prefixable spelling (three slices of 110 spelling rows) -/
